@@ -233,3 +233,29 @@ reg("C09", "c09",
     "IdentFields enumerates 648 field-class combinations and the clock classes (growing, equal, decreasing, dropped); each is "
     "tried through NewIdentityFull + Commit and as a forged remote chain and must be accepted exactly when valid.",
     "Keys are covered by C08. go-git, TLC and the projection code are trusted.", "DESIGN.md section 4, C09")
+
+reg("C14", "c14",
+    "TLA+ spec Remove.tla enumerated by TLC (every configuration x entry point, repeated); each configuration executed on real "
+    "repositories through the entity API, the cache API and the CLI",
+    "TLC enumerates every configuration of 0..3 remotes, the entity local or not, tracked by any subset of the remotes, other "
+    "entities present or not, and checks completeness, the frame condition, idempotence and the end state of a wipe on the model. "
+    "The harness realises each configuration with real refs (bugs and identities; one neighbour sharing an id prefix), removes "
+    "through bug.Remove / identity.Remove, SubCache.Remove and `git-bug bug rm <unique prefix>`, and compares every ref, the "
+    "configuration, and what the live cache, the reopened cache and a rebuilt cache serve (excerpt, prefix resolution, title "
+    "query, full-text hit) with the specification; a merge without a new fetch must not bring the entity back; `git-bug wipe` "
+    "must leave no git-bug ref, configuration key or storage and keep foreign refs and keys.",
+    "Tracking refs are planted directly. go-git, bleve trusted.", "DESIGN.md section 4, C14")
+
+reg("C11", "c11",
+    "TLA+ spec Cache.tla model-checked by TLC; TLC-generated sessions run on two real caches; live-versus-rebuilt comparison "
+    "after every action validated by TLC as a trace",
+    "TLC explores every interleaving of new / edit / commit / push / pull / remove / resolve-under-small-size / reopen by two users "
+    "(3 bugs) and checks that, given the refresh obligations each action carries, every quiescent state has the cache list "
+    "exactly the bugs with a local ref with fresh excerpt, index document and instance. Sessions generated by TLC (plus a "
+    "catalogue including pull-then-edit on merged history, eviction with cache size 1, identity renames) are run on two real "
+    "RepoCaches sharing a remote; after every action the harness builds a second cache from a copy of the git data and compares "
+    "excerpts, resolved snapshots, valid labels, a battery of queries, full-text hits for planted words, create-metadata lookups "
+    "and identities; TLC accepts a trace only if at every point the specification deems quiescent the live cache lists exactly the "
+    "bugs with a local ref and agrees with the rebuilt cache on every facet.",
+    "Content equality is judged against the rebuilt cache (same code): a defect common to both paths is not visible here (C10, C01 "
+    "cover the content). bleve trusted.", "DESIGN.md section 4, C11")
